@@ -134,6 +134,7 @@ type FuncContract struct {
 	Pure     bool // no effects at all (extern stubs)
 	NoAlloc  bool
 	Canon     []string         // properties owning the canonicalisation-stability obligations of the type tests in this function
+	Deferred  bool             // when started with `go`, the function takes effect only after the spawning activation has returned
 	Recovered bool             // explicit panics in this function are caught by a deferred recover up the (trusted) call chain
 	Opaque   bool              // do not inline even if loop free: treat by contract only
 	CallsAs  map[string]string // source text of callee expr -> contract key
@@ -233,7 +234,7 @@ var tagRe = regexp.MustCompile(`^\[([^\]]*)\]\s*`)
 var labelRe = regexp.MustCompile(`^([A-Za-z_][A-Za-z0-9_\-]*):\s+`)
 var headRe = regexp.MustCompile(`^(func|iface|sig|extern|spec|globalinv|atomicfield)\s+(.*)$`)
 var clauseKw = map[string]bool{"returns": true, "safety": true, "requires": true, "ensures": true, "modifies": true, "writes": true,
-	"loop": true, "let": true, "across": true, "ghostset": true, "ghostadd": true, "onwrite": true, "argfrom": true, "inline": true, "trusted": true, "pure": true, "calls": true, "logical": true, "opaque": true, "recovered": true, "canon": true, "logged": true, "noalloc": true}
+	"loop": true, "let": true, "across": true, "ghostset": true, "ghostadd": true, "onwrite": true, "argfrom": true, "inline": true, "trusted": true, "pure": true, "calls": true, "logical": true, "opaque": true, "recovered": true, "deferred": true, "canon": true, "logged": true, "noalloc": true}
 
 func parseTags(s string) (props []string, profile string, rest string) {
 	m := tagRe.FindStringSubmatch(s)
@@ -499,6 +500,8 @@ func (cs *ContractSet) addClause(fc *FuncContract, t, file string, line int) err
 		fc.Opaque = true
 	case "recovered":
 		fc.Recovered = true
+	case "deferred":
+		fc.Deferred = true
 	case "canon":
 		fc.Canon = append(fc.Canon, splitNames(rest)...)
 	case "logged":
